@@ -16,7 +16,8 @@
 (*                  universe with grow / mixed / shrink phases, so that     *)
 (*                  the tree repeatedly grows to height 3-4 and collapses   *)
 (*                  back to a single leaf.                                  *)
-(*  Mode = "reopen" prefix, then close the file, open it again and load.    *)
+(*  Mode = "reopen" prefix, then flush + close the file, open it again and  *)
+(*                  load, then all window call sequences up to the depth.   *)
 (*  Mode = "probes" emits, per (schema, nu, stride) of the Family, the      *)
 (*                  concrete key universe and the probe battery (ranges,    *)
 (*                  multi-lookups) that the harness runs after every call.  *)
@@ -39,6 +40,7 @@ Max(a, b) == IF a > b THEN a ELSE b
 \* ------------------------------------------------------------------ combinations
 \* pk: "E" empty | "B" bulk load of pn keys | "D" bulk load of pn keys, every third with two row ids
 \*     "A" / "Z" / "P" pn single inserts in ascending / descending / permuted order
+\*     "H" / "G" ONE key with pn row ids (low-cardinality column), built by pn inserts / by bulk load
 Combo(schema, nu, stride, pk, pn, lo, hi, dp) ==
    [schema |-> schema, nu |-> nu, stride |-> stride, pk |-> pk, pn |-> pn, lo |-> lo, hi |-> hi, dp |-> dp]
 NuFor(schema, n) == IF schema = "iv" THEN 6 * (((2 * n + 3) + 4) \div 5) ELSE 2 * n + 3
@@ -95,8 +97,14 @@ Thorough ==
 Wide == { W("i", "A", 214, 40, c, 1, 4) : c \in {1, 107} }
 SimCombos == { Combo("v", 48, 5, "E", 0, 1, 48, 0), Combo("v6", 72, 6, "E", 0, 1, 72, 0),
                Combo("v9", 120, 10, "E", 0, 1, 120, 0), Combo("iv", 60, 5, "E", 0, 1, 60, 0) }
-ReopenCombos == { W("v", "E", 0, 3, 2, 3, 1), W("v", "B", 4, 4, 1, 2, 1), W("v", "A", 8, 4, 1, 2, 1) }
+\* after the re-open the window calls go on (a split right after it allocates pages: the page manager's state must
+\* have been persisted as well)
+ReopenCombos == { W("v", "E", 0, 3, 2, 1, 2), W("v", "B", 4, 4, 2, 1, 2), W("v", "A", 8, 4, 4, 1, 2), W("v", "B", 12, 4, 11, 1, 2),
+                  W("iv", "A", 11, 4, 5, 1, 1) }
+\* 300 row ids fit into the key's leaf page, 520 do not (8 bytes each in a 4 KiB page): the multimap has no such limit
+HeavyCombos == { Combo(sc, 13, 6, pk, n, 2, 4, 1) : sc \in {"i", "v"}, pk \in {"H", "G"}, n \in {300, 520} }
 Combos == CASE Family = "quick"    -> Quick
+            [] Family = "heavy"    -> HeavyCombos
             [] Family = "thorough" -> Thorough
             [] Family = "wide"     -> Wide
             [] Family = "sim"      -> SimCombos
@@ -111,7 +119,7 @@ Ins(k, r)    == [a |-> "ins", k |-> k, r |-> r, pr |-> FALSE]
 Del(k)       == [a |-> "del", k |-> k, pr |-> FALSE]
 Dels(k, r)   == [a |-> "dels", k |-> k, r |-> r, pr |-> FALSE]
 Reload       == [a |-> "reload", pr |-> FALSE]
-Reopen       == [a |-> "reopen", pr |-> FALSE]
+Reopen       == [a |-> "reopen", pr |-> TRUE]          \* always probed: a lost tree is reported at the re-open itself
 
 Perm(n, j)   == ((j * 7) % n) + 1          \* a permutation of 1..n when 7 does not divide n
 Prefix(c) ==
@@ -121,6 +129,8 @@ Prefix(c) ==
                                LET g == (t - 1) \div 4  q == (t - 1) % 4        \* groups of 3 keys / 4 entries
                                    j == 3 * g + (IF q = 3 THEN 3 ELSE q + 1)
                                IN <<Base(c, Min(j, c.pn)), 10 * j + (IF q = 3 THEN 1 ELSE 0)>>]) >>
+     [] c.pk = "H" -> << New(c), InsRun([j \in 1..c.pn |-> <<Base(c, 1), 1000 + j>>]) >>
+     [] c.pk = "G" -> << Bulk(c, [j \in 1..c.pn |-> <<Base(c, 1), 1000 + j>>]) >>
      [] c.pk = "A" -> << New(c), InsRun([j \in 1..c.pn |-> <<Base(c, j), 10 * j>>]) >>
      [] c.pk = "Z" -> << New(c), InsRun([j \in 1..c.pn |-> <<Base(c, c.pn + 1 - j), 10 * (c.pn + 1 - j)>>]) >>
      [] c.pk = "P" -> << New(c), InsRun([j \in 1..c.pn |-> <<Base(c, Perm(c.pn, j)), 10 * Perm(c.pn, j)>>]) >>
@@ -151,7 +161,7 @@ Init == /\ cmb \in Combos
         /\ d = IF Mode = "exh" THEN -1 ELSE 0
         /\ IF Mode = "probes" THEN hist = <<>> /\ m = <<>>
            ELSE hist = Prefix(cmb) /\ m = Run(<<>>, Prefix(cmb))
-Limit == CASE Mode = "exh" -> Min(cmb.dp, DepthCap) [] Mode = "sim" -> SimLen [] OTHER -> 1
+Limit == CASE Mode = "exh" -> Min(cmb.dp, DepthCap) [] Mode = "sim" -> SimLen [] Mode = "reopen" -> 1 + Min(cmb.dp, DepthCap) [] OTHER -> 1
 Next ==
    d < Limit /\
    CASE Mode = "exh" ->
@@ -160,12 +170,13 @@ Next ==
      [] Mode = "sim" ->
           \E a \in SimAlphabet(cmb, m, d) : m' = Apply(m, a).st /\ hist' = Append(hist, a) /\ d' = d + 1 /\ UNCHANGED cmb
      [] Mode = "reopen" ->
-          m' = m /\ hist' = Append(hist, Reopen) /\ d' = d + 1 /\ UNCHANGED cmb
+          IF d = 0 THEN m' = m /\ hist' = Append(hist, Reopen) /\ d' = 1 /\ UNCHANGED cmb
+          ELSE \E a \in Alphabet(cmb, m) : m' = Apply(m, a).st /\ hist' = Append(hist, a) /\ d' = d + 1 /\ UNCHANGED cmb
      [] Mode = "probes" ->
           /\ hist' = << [schema |-> cmb.schema, nu |-> cmb.nu, stride |-> cmb.stride,
                          U |-> Univ(cmb.schema, cmb.nu), R |-> Ranges(cmb.nu, cmb.stride), M |-> Multis(cmb.nu)] >>
           /\ d' = d + 1 /\ UNCHANGED <<m, cmb>>
-View  == IF Mode = "probes" THEN <<cmb.schema, cmb.nu, cmb.stride, d>> ELSE <<m, cmb, d = -1>>
+View  == IF Mode = "probes" THEN <<cmb.schema, cmb.nu, cmb.stride, d>> ELSE <<m, cmb, d = -1, Mode = "reopen" /\ d = 0>>
 \* exhaustive mode: every history is its own scenario, so the battery runs once, after its last call;
 \* random walks: one long scenario, the battery runs after every call
 ProbeLast(h) == [h EXCEPT ![Len(h)].pr = TRUE]
@@ -183,9 +194,9 @@ ASSUME \A s \in Schemas : OrderOK(Univ(s, 40))
 ASSUME \A c \in Combos : /\ StrictlySorted(Univ(c.schema, c.nu)) /\ c.lo >= 1 /\ c.hi <= c.nu
                           /\ { StorRank(c.schema, i) : i \in 1..NStor(c.schema, c.nu) } = Storable(c.schema, c.nu)
 \* prefixes are legal inputs (bulk_load requires sorted entries) and only storable keys are stored
-ASSUME Mode # "probes" => \A c \in Combos : /\ (c.pk \in {"B", "D"} => SortedEnts(Prefix(c)[1].ents))
+ASSUME Mode # "probes" => \A c \in Combos : /\ (c.pk \in {"B", "D", "G"} => SortedEnts(Prefix(c)[1].ents))
                                              /\ Present(Run(<<>>, Prefix(c))) \subseteq Storable(c.schema, c.nu)
-                                             /\ Size(Run(<<>>, Prefix(c))) = c.pn
+                                             /\ Size(Run(<<>>, Prefix(c))) = (IF c.pk \in {"H", "G"} THEN 1 ELSE c.pn)
 
 Full == Rg(0, 0, TRUE, TRUE)
 TotalRids(s) == Len(FlatTo(s, Len(s)))
@@ -227,7 +238,7 @@ Inv == /\ Mode # "probes" => (DOMAIN m = 1..cmb.nu /\ Present(m) \subseteq Stora
 
 \* multimap laws, step by step
 Last == hist'[Len(hist')]
-StepLaws == [][ (Mode \in {"exh", "sim"} /\ hist' # hist /\ ~(Mode = "sim" /\ d % 16 # 0)) =>
+StepLaws == [][ (Mode \in {"exh", "sim", "reopen"} /\ hist' # hist /\ ~(Mode = "sim" /\ d % 16 # 0)) =>
    LET a == Last IN
    /\ a.a = "ins"  => /\ m'[a.k] = Append(m[a.k], a.r)
                       /\ \A j \in DOMAIN m \ {a.k} : m'[j] = m[j]
@@ -238,7 +249,7 @@ StepLaws == [][ (Mode \in {"exh", "sim"} /\ hist' # hist /\ ~(Mode = "sim" /\ d 
    /\ a.a = "dels" => /\ \A j \in DOMAIN m \ {a.k} : m'[j] = m[j]
                       /\ Apply(m, a).ret = Has(m[a.k], a.r)
                       /\ IF Has(m[a.k], a.r) THEN BagEq(Append(m'[a.k], a.r), m[a.k]) ELSE m' = m
-   /\ a.a = "reload" => m' = m
+   /\ a.a \in {"reload", "reopen"} => m' = m
    \* every scan is the matching segment of the full scan; a split point partitions the full scan
    /\ \A b \in { 1 + ((Len(hist') * 7 + TotalRids(m')) % cmb.nu) } :
         /\ Flat(RangeGroups(m', Rg(0, b, TRUE, FALSE))) \o Flat(RangeGroups(m', Rg(b, 0, TRUE, TRUE))) = Flat(RangeGroups(m', Full))
